@@ -211,5 +211,10 @@ def check_case(case) -> Obs:
         obs.cls("verdict:" + verdict)
         if obs.violations:
             break
+    _msg = world.templates_changed()
+    if _msg:
+        obs.bad("C02/untouched-object-changed", _msg)
+    if world.templates:
+        obs.cls("cloned-labware")
     obs.nontrivial = n_acc >= 1 and n_ref >= 1
     return obs
